@@ -21,7 +21,7 @@ emg3d.solve is ONE uninterpreted function shared by all runs (simx).
 Decided by z3 on every path: synthetic data, every electric field, the
 solver-info slot of every source-frequency pair, misfit, gradient and J v
 equal those of the sequential in-memory reference run (max_workers = 1, no
-tqdm), and a repeated compute() changes nothing.
+tqdm); J^T w likewise, and a repeated compute() changes nothing.
 """
 import os
 import time
@@ -199,6 +199,11 @@ def scenario(sim, vec, repeat=True):
     out['misfit'] = [mis.item() if isinstance(mis, np.ndarray) else mis]
     out['gradient'] = list(np.asarray(sim.gradient, dtype=object).flat)
     out['jvec'] = list(np.asarray(sim.jvec(vec), dtype=object).flat)
+    wv = np.empty(sim.survey.shape, dtype=object)
+    for i in np.ndindex(*sim.survey.shape):
+        wv[i] = Qc.var(f"w{list(i)}")
+    out['jtvec'] = list(np.asarray(sim.jtvec(wv.view(symx.SymArray)),
+                                   dtype=object).flat)
     if repeat:
         sim.compute()
         out['synthetic (repeated compute)'] = list(
@@ -388,6 +393,8 @@ def replay(cex):
     px = rng.uniform(.5, 2, grid.shape_cells)
     pz = rng.uniform(.5, 2, grid.shape_cells)
     vec = rng.normal(size=(2,)+tuple(grid.shape_cells))
+    wvec = rng.normal(size=(nsrc, 2, nfreq))+1j*rng.normal(size=(nsrc, 2,
+                                                                  nfreq))
 
     def run(max_workers, file_dir, tq):
         survey = emg3d.Survey(src, rec, FREQS[:nfreq], data=data.copy(),
@@ -434,6 +441,7 @@ def replay(cex):
             out['misfit'] = np.array([float(sim.misfit)])
             out['gradient'] = np.array(sim.gradient)
             out['jvec'] = np.array(sim.jvec(vec))
+            out['jtvec'] = np.array(sim.jtvec(wvec))
             sim.compute()
             out['synthetic (repeated compute)'] = \
                 sim.data.synthetic.data.copy()
